@@ -706,6 +706,53 @@ func lightMedium(c *Ctx, prop string, undo bool, collect ...string) {
 			}
 		}
 	}
+	// gap family (see gapHists): 21 leaves, an interval deleted, then blocks deleting the neighbours
+	// of the growing gap; with undo, every history is then undone block by block down to the first
+	{
+		gapNs, gapW, gapDepth := []int{21}, 3, 2
+		if c.Thorough() {
+			gapNs, gapW, gapDepth = []int{21, 27}, 5, 3
+		}
+		before := len(jobs)
+		for _, N := range gapNs {
+			all, evens := mk(N)
+			rems := [][]int{all, evens, {3, N - 2}}
+			if prop == "C11" {
+				rems = [][]int{{}}
+			}
+			for _, R := range rems {
+				for _, h := range gapHists(N, gapW, []int{0, 2}, gapDepth, R, prop != "C11") {
+					if undo {
+						for u, nb := 1, len(h); u < nb; u++ {
+							h = append(h, Op{Kind: "undo"})
+						}
+					}
+					jobs = append(jobs, job{h})
+				}
+			}
+		}
+		c.Cov.Bound["gap_family"] = fmt.Sprintf("N=%v interval width<=%d, %d neighbour blocks; %d histories", gapNs, gapW, gapDepth-1, len(jobs)-before)
+		// two-deletion-block family: every [add N][delete S][delete T, add k] (3^N assignments)
+		tdN := 8
+		if c.Thorough() {
+			tdN = 9
+		}
+		before = len(jobs)
+		all, evens := mk(tdN)
+		rems := [][]int{all, evens, {0}, {tdN - 1}}
+		if prop == "C11" {
+			rems = [][]int{{}}
+		}
+		for _, R := range rems {
+			for _, h := range twoDelHists(tdN, []int{0, 1}, R, prop != "C11") {
+				if undo {
+					h = append(h, Op{Kind: "undo"}, Op{Kind: "undo"})
+				}
+				jobs = append(jobs, job{h})
+			}
+		}
+		c.Cov.Bound["two_deletion_blocks"] = fmt.Sprintf("N=%d, every disjoint non-empty S,T, remember all / even / first / last; %d histories", tdN, len(jobs)-before)
+	}
 	var steps, evals int64
 	ok := parallelFor(c, len(jobs), func(i int) {
 		n, _ := fam.Root()
